@@ -5,7 +5,8 @@ instance up by the token id of the message, and if there is none it lists a new 
 calls the protocol constructor (user code, may take arbitrarily long), registers the protocol
 instance and hands the message over; otherwise it hands the message to the existing instance.
 Threads: `wait` = before `transmitMux.Lock()`, `ctor` = inside the region while the constructor
-runs (the lock is held), `fin`.  Finished instances belong to C11.  Core-only. -/
+runs (the lock is held), `fin`.  An instance may declare itself done (`done`): it is unlisted and marked,
+and later messages for its token are dropped inside the region (the rest of that story is C11).  Core-only. -/
 namespace C01.Inst
 
 inductive Pc where | wait | ctor | fin deriving DecidableEq, Repr
@@ -22,18 +23,23 @@ structure St where
   created : List Nat := []          -- ghost: constructor calls, by token
   handed : List (Nat × Nat) := []   -- ghost: (token of the instance, message) in hand-over order
   arrived : List (Nat × Nat) := []  -- ghost
+  doneToks : List Nat := []         -- `o.instancesInfo[tok] = true`
+  dropped : List (Nat × Nat) := []  -- ghost: late messages, dropped inside the region
   thr : List Th := []
   deriving Repr
 
 inductive Act where
   | arrive (tok m : Nat)
   | thread (i : Nat)
+  | done (tok : Nat)                -- the registered instance of `tok` declares itself done
   deriving Repr
 
 def stepTh (s : St) (i : Nat) (t : Th) : Option St :=
   match t.pc with
   | .wait =>
       if s.mux.isSome then none                       -- blocked on `transmitMux`
+      else if t.tok ∈ s.doneToks then              -- late message for a finished instance
+        some { s with dropped := s.dropped ++ [(t.tok, t.m)], thr := s.thr.set i { t with pc := .fin } }
       else if t.tok ∈ s.inst then
         some { s with handed := s.handed ++ [(t.tok, t.m)], thr := s.thr.set i { t with pc := .fin } }
       else
@@ -50,6 +56,10 @@ def step (s : St) : Act → Option St
       match s.thr[i]? with
       | some t => stepTh s i t
       | none => none
+  | .done tok =>
+      if tok ∈ s.inst then
+        some { s with inst := s.inst.filter (· != tok), doneToks := s.doneToks ++ [tok] }
+      else none
 
 def run (s : St) : List Act → St
   | [] => s
